@@ -534,6 +534,40 @@ def State.commitSync (s : State) (w : Nat) (fail : Option Nat) : Option State :=
       s3.commitDone w
   | none => none
 
+/-- `Commit()` of a memory writer with `SyncAdd = true` while the file system refuses to extend any file
+(`RLIMIT_FSIZE = 0`): `w.Write(cached.Bytes())` fails after 0 bytes unless there is nothing to write.
+Returns whether `Commit` reported success.  The value is in the memory LRU either way. -/
+def State.commitSyncNoSpace (s : State) (w : Nat) : Option (State × Bool) :=
+  match s.writers[w]? with
+  | some wr =>
+    if wr.direct then none
+    else do
+      let s1 ← s.commitMemPublish w
+      let wr1 ← s1.writers[w]?
+      match wr1.phase with
+      | .published rc =>
+        let r ← s1.mem.rcs[rc]?
+        let bf ← s1.bufs[r.val]?
+        if bf.data.isEmpty then do
+          let s2 ← s1.commitDiskWrite w none
+          let s3 ← s2.commitRename w
+          let s4 ← s3.commitDone w
+          some (s4, true)
+        else do
+          let s2 ← s1.commitDiskWrite w (some 0)
+          let s3 ← s2.commitDone w
+          some (s3, false)
+      | _ => none
+  | none => none
+
+/-- `bufPool.Get()` as the sequential driver resolves it: the pooled buffer with the smallest index, `New`
+if the pool is empty (which buffer is handed out is not observable). -/
+def firstPooled (bufs : List Buf) : Option Nat :=
+  let rec go : Nat → List Buf → Option Nat
+    | _, [] => none
+    | i, b :: t => if b.owner = .pooled then some i else go (i + 1) t
+  go 0 bufs
+
 /-- `Get(key, opts)`: memory, then descriptor cache, then `os.Open`. -/
 def State.get (s : State) (k : Nat) (o : Opts) : Option State :=
   match s.getMem k o with
